@@ -267,7 +267,23 @@ func c09Engine(c *lab.Ctx) {
 // c09Quiescent compares the pools' books with the kernel's socket table once nothing is in flight.
 func c09Quiescent(c *lab.Ctx, e *engine, proto string, when string) {
 	_, _ = e.quiesce(6 * time.Second)
-	check := func() []string {
+	check := func() []string { return c09BooksBad(e, proto, true) }
+	bad := check()
+	for try := 0; try < 8 && len(bad) > 0; try++ { // sockets closing right now
+		time.Sleep(250 * time.Millisecond)
+		bad = check()
+	}
+	c.Eval(1)
+	for _, b := range bad {
+		p := strings.SplitN(b, "|", 2)
+		c.Violation("books-equal-truth-at-quiescence", "C09/books/"+p[0]+"/"+proto, when+": "+p[1], map[string]interface{}{"when": when})
+	}
+}
+
+// c09BooksBad compares the books of every pool of the protocol with the kernel's socket table (and, optionally, the clusters'
+// request-type breaker counters with zero). Only meaningful when nothing of that protocol is in flight.
+func c09BooksBad(e *engine, proto string, withBreakers bool) []string {
+	{
 		var bad []string
 		cluster.VerifRangePools(func(p api.ProtocolName, addr string, pool types.ConnectionPool) {
 			if string(p) != proto {
@@ -299,6 +315,9 @@ func c09Quiescent(c *lab.Ctx, e *engine, proto string, when string) {
 		})
 		// the clusters' own counters of requests in flight (what max_requests / max_pending_requests / max_retries are judged against)
 		for _, suffix := range []string{"", "-lim", "-one", "-empty", "-dead"} {
+			if !withBreakers {
+				break
+			}
 			name := "cl-" + proto + suffix
 			bb := breakerBooks(name)
 			for _, res := range []string{"requests", "pending_requests", "retries"} {
@@ -308,16 +327,6 @@ func c09Quiescent(c *lab.Ctx, e *engine, proto string, when string) {
 			}
 		}
 		return bad
-	}
-	bad := check()
-	for try := 0; try < 8 && len(bad) > 0; try++ { // sockets closing right now
-		time.Sleep(250 * time.Millisecond)
-		bad = check()
-	}
-	c.Eval(1)
-	for _, b := range bad {
-		p := strings.SplitN(b, "|", 2)
-		c.Violation("books-equal-truth-at-quiescence", "C09/books/"+p[0]+"/"+proto, when+": "+p[1], map[string]interface{}{"when": when})
 	}
 }
 
@@ -482,6 +491,20 @@ func c09Steered(c *lab.Ctx, e *engine, proto string, rng *lab.Rand, doOp func(cl
 			destroyed = map[uint64]chan struct{}{}
 			mu.Unlock()
 			doOp(cl, proto, op)
+			// the client is sequential: nothing of this protocol is in flight now. Every connection of its pools must be idle or
+			// closed - a closed connection left in the idle list shows as idle > total (it would be leased to the next request)
+			var bad []string
+			for try := 0; try < 12; try++ {
+				if bad = c09BooksBad(e, proto, false); len(bad) == 0 {
+					break
+				}
+				time.Sleep(100 * time.Millisecond)
+			}
+			for _, b := range bad {
+				p := strings.SplitN(b, "|", 2)
+				when := fmt.Sprintf("steered close order, after operation %q of %v", op, ops)
+				c.Violation("books-equal-truth-at-quiescence", "C09/books/"+p[0]+"/"+proto, when+": "+p[1], map[string]interface{}{"when": when})
+			}
 		}
 		cl.close()
 		c.Eval(1)
